@@ -188,3 +188,63 @@ def pkdtree_disagrees(lattice, site_frac, pos_frac, radii):
         if got != ref:
             return True
     return False
+
+
+# ---------------------------------------------------------------- input-state guard (used by the harnesses)
+class InputGuard:
+    """Records the observable state of the objects handed to the code under test and reports which of them changed.
+    Trajectory: wrapped positions of a deep copy (in-place conversion between positions and displacements is by design and not a change),
+    species, lattice, time step; Transitions: states, inner states, event table; Structure: fractional coordinates and labels;
+    Volume: data; numpy arrays / DataFrames / dicts / lists: value."""
+
+    def __init__(self, **objs):
+        self.objs = objs
+        self.before = {k: self._state(v) for k, v in objs.items()}
+
+    @staticmethod
+    def _state(o):
+        import copy
+        name = type(o).__name__
+        if hasattr(o, 'coords_are_displacement'):
+            c = copy.deepcopy(o)
+            return ('traj', np.array(c.positions), tuple(str(s) for s in o.species), np.array(o.lattice).copy(), float(o.time_step))
+        if name == 'Transitions':
+            return ('transitions', np.array(o.states).copy(), np.array(o.inner_states).copy(), o.events.copy(deep=True))
+        if hasattr(o, 'frac_coords') and hasattr(o, 'species'):
+            return ('structure', np.array(o.frac_coords).copy(), [str(s) for s in o.species], list(getattr(o, 'labels', [])))
+        if hasattr(o, 'data') and hasattr(o, 'lattice') and isinstance(getattr(o, 'data'), np.ndarray):
+            return ('volume', np.array(o.data).copy())
+        return ('value', copy.deepcopy(o))
+
+    @staticmethod
+    def _same(a, b):
+        import pandas as pd
+        if a[0] != b[0]:
+            return False
+        if a[0] == 'traj':
+            if a[1].shape != b[1].shape:
+                return False
+            d = a[1] - b[1]
+            d -= np.round(d)
+            return bool(np.abs(d).max(initial=0) < 1e-9) and a[2] == b[2] and np.array_equal(a[3], b[3]) and a[4] == b[4]
+        for x, y in zip(a[1:], b[1:]):
+            if isinstance(x, np.ndarray):
+                if x.shape != y.shape or not np.array_equal(x, y, equal_nan=x.dtype.kind == 'f'):
+                    return False
+            elif isinstance(x, pd.DataFrame):
+                if not x.equals(y):
+                    return False
+            elif x != y:
+                return False
+        return True
+
+    def changed(self):
+        return sorted(k for k, v in self.objs.items() if not self._same(self.before[k], self._state(v)))
+
+
+def inputs_clause(out, what):
+    """oracle clause for an InputGuard result stored under out['inputs_changed']"""
+    ch = out.get('inputs_changed')
+    if ch:
+        return [('inputs/modified-by-analysis', f'{what} modified the object(s) it was given: {", ".join(ch)}')]
+    return []
